@@ -209,6 +209,20 @@ def mutation_list(draw, chunks):
         kinds += ["opt"]
     if link_idx:
         kinds += ["link"] * 2
+    # SLNK chunks with their SLnK partner (same module section), for entry-copying mutations
+    link_pairs = []
+    for i in link_idx:
+        if chunks[i][0] == b"SLNK" and len(chunks[i][1]) >= 4:
+            partner = None
+            for j in range(i + 1, len(chunks)):
+                if chunks[j][0] == b"SEND":
+                    break
+                if chunks[j][0] == b"SLnK":
+                    partner = j
+                    break
+            link_pairs.append((i, partner))
+    if link_pairs:
+        kinds += ["link_copy"] * 2
     if pdta_idx:
         kinds += ["pdta"]
     if not kinds:
@@ -271,6 +285,14 @@ def mutation_list(draw, chunks):
             else:
                 v = draw(st.one_of(st.just(-1), st.integers(0, 6)))
             muts.append(["link", i, j, v])
+        elif k == "link_copy":
+            # the same connection stored twice: entry `src` of SLNK (and of SLnK, when the module has one)
+            # copied over entry `dst`, or appended at the end
+            i, partner = draw(st.sampled_from(link_pairs))
+            cnt = len(chunks[i][1]) // 4
+            src = draw(st.integers(0, cnt - 1))
+            dst = draw(st.one_of(st.just(cnt), st.integers(0, cnt)))
+            muts.append(["link_copy", i, partner, src, dst])
         elif k == "pdta":
             i = draw(st.sampled_from(pdta_idx))
             ncell = len(chunks[i][1]) // 8
@@ -292,6 +314,19 @@ def apply_mutations(chunks, muts):
             vals = list(struct.unpack("<%di" % (len(p) // 4), p))
             vals[mu[2]] = mu[3]
             out[mu[1]] = (cid, struct.pack("<%di" % len(vals), *vals))
+        elif mu[0] == "link_copy":
+            for ci in (mu[1], mu[2]):
+                if ci is None:
+                    continue
+                cid, p = out[ci]
+                vals = list(struct.unpack("<%di" % (len(p) // 4), p))
+                if mu[3] >= len(vals):
+                    continue
+                if mu[4] >= len(vals):
+                    vals.append(vals[mu[3]])
+                else:
+                    vals[mu[4]] = vals[mu[3]]
+                out[ci] = (cid, struct.pack("<%di" % len(vals), *vals))
         elif mu[0] == "pdta":
             cid, p = out[mu[1]]
             b = bytearray(p)
@@ -371,6 +406,8 @@ def case_labels(case):
                 labels.add("cval_neg_min_out_of_range")
             if mu[3] == "bool":
                 labels.add("cval_bool_wide")
+        elif mu[0] == "link_copy":
+            labels.add("link_stored_twice" + ("_with_slots" if mu[2] is not None else ""))
         elif mu[0] == "opt":
             labels.add("option_bytes")
         elif mu[0] == "link":
